@@ -35,7 +35,7 @@ ColsAreItems == IsItemLike(DimC)
 CountR(tk, re, ce, st) ==
   IF (IsDiff(re) \/ IsDiff(ce)) /\ HasY /\ ValidCounts THEN NaN
   ELSE IF IsDiff(re) /\ IsDiff(ce) THEN NaN
-  ELSE R(Count(tk, re, ce, st))
+  ELSE RSt(Count(tk, re, ce, st), st)
 
 CountM(tk, RE, CE, st) ==
   Mat(Len(RE), Len(CE), LAMBDA i, j : CountR(tk, RE[i], CE[j], st))
@@ -43,12 +43,12 @@ CountM(tk, RE, CE, st) ==
 \* per-cell bases; own-direction base of a difference is NaN
 RowBaseM(tk, RE, CE, st) ==
   Mat(Len(RE), Len(CE), LAMBDA i, j :
-      RowDiffNaN(RE[i], R(RowBase(tk, RE[i], CE[j], st))))
+      RowDiffNaN(RE[i], RSt(RowBase(tk, RE[i], CE[j], st), st)))
 ColBaseM(tk, RE, CE, st) ==
   Mat(Len(RE), Len(CE), LAMBDA i, j :
-      ColDiffNaN(CE[j], R(ColBase(tk, RE[i], CE[j], st))))
+      ColDiffNaN(CE[j], RSt(ColBase(tk, RE[i], CE[j], st), st)))
 TableBaseM(tk, RE, CE, st) ==
-  Mat(Len(RE), Len(CE), LAMBDA i, j : R(TableBase(tk, RE[i], CE[j], st)))
+  Mat(Len(RE), Len(CE), LAMBDA i, j : RSt(TableBase(tk, RE[i], CE[j], st), st))
 
 \* a base element of the opposing dimension, used where a base does not
 \* depend on the opposing element (categorical opposing dimension)
@@ -60,25 +60,25 @@ HasValid(d) == ValidPos(d) # {}
 RowsMargin(tk, RE, CE, st) ==
   IF ColsAreItems THEN Num2(RowBaseM(tk, RE, CE, st))
   ELSE Num1(Vec(Len(RE), LAMBDA i :
-         RowDiffNaN(RE[i], R(RowBase(tk, RE[i], AnyEl(DimC), st)))))
+         RowDiffNaN(RE[i], RSt(RowBase(tk, RE[i], AnyEl(DimC), st), st))))
 ColsMargin(tk, RE, CE, st) ==
   IF RowsAreItems THEN Num2(ColBaseM(tk, RE, CE, st))
   ELSE Num1(Vec(Len(CE), LAMBDA j :
-         ColDiffNaN(CE[j], R(ColBase(tk, AnyEl(DimR), CE[j], st)))))
+         ColDiffNaN(CE[j], RSt(ColBase(tk, AnyEl(DimR), CE[j], st), st))))
 
 TableBaseOut(tk, RE, CE, st) ==
   IF RowsAreItems /\ ColsAreItems THEN Num2(TableBaseM(tk, RE, CE, st))
   ELSE IF ColsAreItems THEN
-       Num1(Vec(Len(CE), LAMBDA j : R(TableBase(tk, AnyEl(DimR), CE[j], st))))
+       Num1(Vec(Len(CE), LAMBDA j : RSt(TableBase(tk, AnyEl(DimR), CE[j], st), st)))
   ELSE IF RowsAreItems THEN
-       Num1(Vec(Len(RE), LAMBDA i : R(TableBase(tk, RE[i], AnyEl(DimC), st))))
-  ELSE Num0(R(TableBase(tk, AnyEl(DimR), AnyEl(DimC), st)))
+       Num1(Vec(Len(RE), LAMBDA i : RSt(TableBase(tk, RE[i], AnyEl(DimC), st), st)))
+  ELSE Num0(RSt(TableBase(tk, AnyEl(DimR), AnyEl(DimC), st), st))
 
 \* [min, max] of the table base over the base (unpruned, non-inserted) cells
 TableBaseRange(tk, st) ==
   LET vals == {TableBase(tk, BaseEls(DimR)[i], BaseEls(DimC)[j], st) :
                  i \in 1..Len(BaseEls(DimR)), j \in 1..Len(BaseEls(DimC))}
-  IN  Num1(<<R(Min(vals)), R(Max(vals))>>)
+  IN  Num1(<<RSt(Min(vals), st), RSt(Max(vals), st)>>)
 
 \* --- proportions ---------------------------------------------------------
 IsDate(d) == Dims[d].date
@@ -88,8 +88,8 @@ OneMinusOne(e) == Cardinality(e.pos) = 1 /\ Cardinality(e.neg) = 1
 OnlyPos(d, e) == BaseEl(d, CHOOSE x \in e.pos : TRUE)
 OnlyNeg(d, e) == BaseEl(d, CHOOSE x \in e.neg : TRUE)
 
-PlainRowProp(tk, re, ce) == Div(R(Count(tk, re, ce, WS)), R(RowBase(tk, re, ce, WS)))
-PlainColProp(tk, re, ce) == Div(R(Count(tk, re, ce, WS)), R(ColBase(tk, re, ce, WS)))
+PlainRowProp(tk, re, ce) == Div(RSt(Count(tk, re, ce, WS), WS), RSt(RowBase(tk, re, ce, WS), WS))
+PlainColProp(tk, re, ce) == Div(RSt(Count(tk, re, ce, WS), WS), RSt(ColBase(tk, re, ce, WS), WS))
 
 \* row proportion.  Own-direction difference (row difference): undefined, except
 \* that on a categorical-date rows dimension a one-minus-one difference is the
@@ -116,7 +116,7 @@ ColProp(tk, re, ce) ==
   ELSE PlainColProp(tk, re, ce)
 
 TableProp(tk, re, ce) ==
-  Div(CountR(tk, re, ce, WS), R(TableBase(tk, re, ce, WS)))
+  Div(CountR(tk, re, ce, WS), RSt(TableBase(tk, re, ce, WS), WS))
 
 RowPropM(tk, RE, CE)   == Mat(Len(RE), Len(CE), LAMBDA i, j : RowProp(tk, RE[i], CE[j]))
 ColPropM(tk, RE, CE)   == Mat(Len(RE), Len(CE), LAMBDA i, j : ColProp(tk, RE[i], CE[j]))
@@ -128,19 +128,19 @@ Times100(m) == [i \in DOMAIN m |-> [j \in DOMAIN m[i] |-> Mul(R(100), m[i][j])]]
 RowsMarginProp(tk, RE, CE) ==
   IF ColsAreItems
   THEN Num2(Mat(Len(RE), Len(CE), LAMBDA i, j :
-         Div(R(RowBase(tk, RE[i], CE[j], WS)), R(TableBase(tk, RE[i], CE[j], WS)))))
+         Div(RSt(RowBase(tk, RE[i], CE[j], WS), WS), RSt(TableBase(tk, RE[i], CE[j], WS), WS))))
   ELSE Num1(Vec(Len(RE), LAMBDA i :
          IF IsDiff(RE[i]) /\ HasY /\ ValidCounts THEN NaN
-         ELSE Div(R(RowBase(tk, RE[i], AnyEl(DimC), WS)),
-                  R(TableBase(tk, RE[i], AnyEl(DimC), WS)))))
+         ELSE Div(RSt(RowBase(tk, RE[i], AnyEl(DimC), WS), WS),
+                  RSt(TableBase(tk, RE[i], AnyEl(DimC), WS), WS))))
 ColsMarginProp(tk, RE, CE) ==
   IF RowsAreItems
   THEN Num2(Mat(Len(RE), Len(CE), LAMBDA i, j :
-         Div(R(ColBase(tk, RE[i], CE[j], WS)), R(TableBase(tk, RE[i], CE[j], WS)))))
+         Div(RSt(ColBase(tk, RE[i], CE[j], WS), WS), RSt(TableBase(tk, RE[i], CE[j], WS), WS))))
   ELSE Num1(Vec(Len(CE), LAMBDA j :
          IF IsDiff(CE[j]) /\ HasY /\ ValidCounts THEN NaN
-         ELSE Div(R(ColBase(tk, AnyEl(DimR), CE[j], WS)),
-                  R(TableBase(tk, AnyEl(DimR), CE[j], WS)))))
+         ELSE Div(RSt(ColBase(tk, AnyEl(DimR), CE[j], WS), WS),
+                  RSt(TableBase(tk, AnyEl(DimR), CE[j], WS), WS))))
 
 \* minimum-base masks: TRUE exactly where the unweighted base is below the threshold
 \* (an undefined base -- own direction of a difference -- is never "below")
@@ -162,7 +162,7 @@ YWt(co, f(_, _)) ==
                      ELSE 0)
 MeanAt(co) == Div(R(YWt(co, LAMBDA k, y : k.w * y)), R(YWt(co, LAMBDA k, y : k.w)))
 SumAt(co)  == IF YWt(co, LAMBDA k, y : 1) = 0 /\ SumNaN THEN NaN
-              ELSE R(YWt(co, LAMBDA k, y : k.w * y))
+              ELSE RW(YWt(co, LAMBDA k, y : k.w * y))
 StdAt(co)  == Sub(Div(R(YWt(co, LAMBDA k, y : k.w * y * y)), R(YWt(co, LAMBDA k, y : k.w))),
                   Sq(MeanAt(co)))
 MedAt(co)  == Add(Mul(R(2), MeanAt(co)), One)
@@ -192,14 +192,14 @@ YStatM(name, tk, RE, CE) ==
 (* 1-D partition: rows only.  CE is ignored (pass << >>).                  *)
 (***************************************************************************)
 SCount(tk, re, st) == Count(tk, re, NoEl, st)
-SBaseV(tk, RE, st)  == Vec(Len(RE), LAMBDA i : R(TableBase(tk, RE[i], NoEl, st)))
+SBaseV(tk, RE, st)  == Vec(Len(RE), LAMBDA i : RSt(TableBase(tk, RE[i], NoEl, st), st))
 \* strand counts and proportions; a several-term difference on a categorical-date
 \* dimension has no proportion
 SCountR(tk, re, st) ==
-  IF IsDiff(re) /\ HasY /\ ValidCounts THEN NaN ELSE R(SCount(tk, re, st))
+  IF IsDiff(re) /\ HasY /\ ValidCounts THEN NaN ELSE RSt(SCount(tk, re, st), st)
 SProp(tk, re) ==
   IF IsDate(DimR) /\ IsDiff(re) /\ re.pos # {} /\ MultiTerm(re) THEN NaN
-  ELSE Div(SCountR(tk, re, WS), R(TableBase(tk, re, NoEl, WS)))
+  ELSE Div(SCountR(tk, re, WS), RSt(TableBase(tk, re, NoEl, WS), WS))
 SPropV(tk, RE) == Vec(Len(RE), LAMBDA i : SProp(tk, RE[i]))
 SCountV(tk, RE, st) == Vec(Len(RE), LAMBDA i : SCountR(tk, RE[i], st))
 SYStatV(name, tk, RE) ==
@@ -210,5 +210,5 @@ SMask(tk, RE, thr) ==
   Exact([i \in 1..Len(RE) |-> TableBase(tk, RE[i], NoEl, "n") < thr])
 SBaseRange(tk, st) ==
   LET vals == {TableBase(tk, BaseEls(DimR)[i], NoEl, st) : i \in 1..Len(BaseEls(DimR))}
-  IN  Num1(<<R(Min(vals)), R(Max(vals))>>)
+  IN  Num1(<<RSt(Min(vals), st), RSt(Max(vals), st)>>)
 =============================================================================
